@@ -92,9 +92,21 @@ def class_source(cs):
         # decorated with init=False: a hand-written constructor
         body = "".join(f"    {f}: object\n" for f in fields)
         args = ", ".join(fields)
-        sets = "".join(f"        object.__setattr__(self, {f!r}, {f})\n" for f in fields)
+        # (the constructor may store the fields in another order than they are declared in)
+        order = list(reversed(fields)) if cs.get("reverse_store") else fields
+        sets = "".join(f"        object.__setattr__(self, {f!r}, {f})\n" for f in order)
         body += f"    def __init__(self, {args}):\n{sets}"
         return f"@expr_dataclass(init=False)\nclass {name}(Expression):\n{body}"
+    if kind == "dc_derived":
+        # a field that is not a constructor argument, filled in by __post_init__ -- declared
+        # in the middle, so it is stored after the fields behind it
+        body = f"    {fields[0]}: object\n"
+        body += f"    {fields[1]}: str = dataclasses.field(init=False)\n"
+        body += "".join(f"    {f}: object\n" for f in fields[2:])
+        body += (f"    def __post_init__(self):\n"
+                 f"        object.__setattr__(self, {fields[1]!r}, "
+                 f"'d' + type(self.{fields[0]}).__name__)\n")
+        return f"@expr_dataclass()\nclass {name}(Expression):\n{body}"
     if kind == "legacy_transform":
         # undecorated subclass whose constructor is not a plain store of its arguments
         return (f"class {name}(Variable):\n"
@@ -171,7 +183,7 @@ def gen_user_classes(r):
     for k in range(n):
         name = f"U{k}"
         kind = r.choice(["dc", "dc", "dc_nohash", "dc_noinit", "legacy_sub", "legacy_sub",
-                         "pure_legacy", "legacy_transform"])
+                         "pure_legacy", "legacy_transform", "dc_derived"])
         if kind == "legacy_transform":
             specs.append({"name": name, "kind": kind, "base": "Variable", "fields": [],
                           "all_fields": ["name"]})
@@ -179,7 +191,13 @@ def gen_user_classes(r):
         if kind == "dc_noinit":
             fields = USER_FIELD_NAMES[:r.randint(1, 2)]
             specs.append({"name": name, "kind": kind, "base": None, "fields": fields,
-                          "all_fields": fields})
+                          "all_fields": fields, "reverse_store": r.random() < 0.5})
+            continue
+        if kind == "dc_derived":
+            fields = USER_FIELD_NAMES[:r.randint(2, 3)]
+            # the constructor takes every field but the derived one
+            specs.append({"name": name, "kind": kind, "base": None, "fields": fields,
+                          "all_fields": fields, "ctor_fields": [fields[0]] + fields[2:]})
             continue
         if kind in ("dc", "dc_nohash"):
             if decorated and r.random() < 0.5:
@@ -468,7 +486,7 @@ def generate(seed, tier):
             bk = base_kinds[b]
         else:
             bk = []
-        kinds_of[cs["name"]] = _field_kinds_for(cs["all_fields"], bk)
+        kinds_of[cs["name"]] = _field_kinds_for(cs.get("ctor_fields") or cs["all_fields"], bk)
         if cs.get("hash_mode") in ("first", "const"):
             # with a coarse hash every comparison gets past the hash fast path
             kinds_of[cs["name"]] = [("anyt" if k == "any" else k) for k in kinds_of[cs["name"]]]
